@@ -1,7 +1,7 @@
 (* C10 — Clean-up passes never change what the function computes (what may be deleted). *)
 From Avo Require Import Base.Prelude.
 From stdpp Require Import gmap.
-From Avo Require Import Base.MaskSet Model.IR Model.RegFile Model.Alloc Model.Cleanup Proofs.AllocProofs.
+From Avo Require Import Base.MaskSet Model.IR Model.RegFile Model.Alloc Model.Cleanup Proofs.AllocProofs Proofs.CleanupProofs.
 Open Scope N_scope.
 Open Scope list_scope.
 
@@ -29,6 +29,21 @@ Proof.
   - destruct n; auto.
 Qed.
 Print Assumptions prune_labels_keeps.
+
+(* PruneJumpToFollowingLabel: the result is the input with some nodes dropped, and every dropped
+   node is an unconditional branch whose target is the label that immediately followed it (control
+   falls through to the same place); every other node is kept, in order *)
+Theorem prune_jumps_only_fallthrough : forall ns, jumps_dropped ns (prune_jumps ns).
+Proof. exact prune_jumps_dropped. Qed.
+Print Assumptions prune_jumps_only_fallthrough.
+
+(* after both label-related passes every branch names exactly the labels it named before, and a
+   label it names that was defined is still defined: no branch is left dangling by the clean-up *)
+Theorem cleanup_never_dangles : forall ns l,
+  In l (label_refs (prune_labels (prune_jumps ns))) -> In (NLabel l) ns ->
+  In (NLabel l) (prune_labels (prune_jumps ns)) /\ In l (label_refs ns).
+Proof. exact cleanup_keeps_targets. Qed.
+Print Assumptions cleanup_never_dangles.
 
 (* the pinned pass deleted MOVL r,r and MOVQ X,X *)
 Example movl_self_move_refuted :
